@@ -284,9 +284,9 @@ pub fn property() -> Property {
             "M-dewey-pattern and M-dewey are written from the statements of C02 / C01",
         ],
         streams: vec![
-            random_stream("random", "random (pattern, name) pairs", case_strategy, |t| t.pick(200_000, 2_000_000), check),
+            random_stream("random", "random (pattern, name) pairs", case_strategy, |t| t.pick(200_000, 10_000_000), check),
             enumerated_stream("enumerated", "complete product: bases x operator shapes x bounds x base relations x versions", enumerate, check),
-            random_stream("realistic", "real pkgsrc dewey patterns (sample of tests/data/pkgdeps.txt) against real package versions (pkgnames.txt), KF-1 leniency as in C01", real_strategy, |t| t.pick(60_000, 1_000_000), check_real),
+            random_stream("realistic", "real pkgsrc dewey patterns (sample of tests/data/pkgdeps.txt) against real package versions (pkgnames.txt), KF-1 leniency as in C01", real_strategy, |t| t.pick(60_000, 5_000_000), check_real),
         ],
         selfcheck: m::selfcheck,
         hang_is_violation: false,
